@@ -60,3 +60,5 @@ LEVEL = {
 CFG['rule'] = CFG['rule'] + ' ' + 'CDupInsert: an insert of one point whose id is already stored in the target shard (range must be reported failed, total must not move). CStored: at the end of every sequence the total reported by the shards against the number of sent ids found by individual look-ups.'
 
 CFG['rule'] = CFG['rule'] + ' ' + "The node's shard-manager root differs from the node root."
+
+CFG['rule'] = CFG['rule'] + ' ' + 'One create request in three carries a different plan (MaxCollections 0, 1, or the current number of collections -2 .. +1).'
